@@ -139,7 +139,7 @@ func (x *Exec) verifyUnit(fn *ssa.Function) {
 		}
 		for _, cl := range x.unitC.Requires {
 			x.applyModePredicates(st, fr, cl.Expr)
-			st.assume(x.evalClause(st, fr, cl, nil))
+			st.assume(x.evalAssume(st, fr, cl, nil))
 		}
 		fr.entry = st.fork()
 	}
@@ -542,7 +542,7 @@ func (x *Exec) callByContract(st *State, fr *Frame, callee *ssa.Function, c *Con
 		if cl.Kind == "lemma" {
 			continue // proof-internal: speaks about the callee's locals
 		}
-		st.assume(x.evalClause(st, cf, cl, binds))
+		st.assume(x.evalAssume(st, cf, cl, binds))
 	}
 	if x.faulty {
 		for _, k := range append(append([]string{}, failKinds...), "any") {
